@@ -93,6 +93,7 @@ func ValidateCost(operationName string, variableValues map[string]interface{}, m
 				ctx := ctxs[len(ctxs)-1]
 				newMultiplier := multiplier
 				newCtx := ctx
+				verifCostVisit(node)
 
 				switch selection := node.(type) {
 				case *ast.Field:
